@@ -247,7 +247,7 @@ impl Gen {
 
     pub fn constructor(&mut self, h: usize, ovf: bool) {
         let ml = self.ml(h);
-        let kinds = [Kind::Zeros, Kind::Ones, Kind::Repeat, Kind::WithCapacity, Kind::FromBytes, Kind::FromBinary, Kind::FromHex, Kind::FromUint];
+        let kinds = [Kind::Zeros, Kind::Ones, Kind::Repeat, Kind::WithCapacity, Kind::FromBytes, Kind::FromBytes, Kind::FromBinary, Kind::FromHex, Kind::FromUint, Kind::FromSlice];
         let kind = *self.rng.pick(&kinds);
         let mut st = Step::new(kind, h as u8);
         st.bit = self.rng.bool();
@@ -263,10 +263,12 @@ impl Gen {
                 st.a = *self.rng.pick(&[0u64, 1, 63, 64, 65, 127, 128, 129, 200, 640, 1000]);
                 self.plen[h] = 0;
             }
-            Kind::FromBytes | Kind::FromBinary | Kind::FromHex => {
+            Kind::FromBytes | Kind::FromBinary | Kind::FromHex | Kind::FromSlice => {
+                st.a = self.rng.below(6);
                 let unit = match kind {
                     Kind::FromBytes => 8,
                     Kind::FromHex => 4,
+                    Kind::FromSlice => [8, 16, 32, 64, 128, 64][st.a as usize],
                     _ => 1,
                 };
                 let t = if ovf { ml + unit + self.rng.below(64) as usize } else { self.len_upto(ml) };
@@ -597,8 +599,13 @@ fn gen_history(g: &mut Gen, budget: usize, prop: &str) {
     let prate: u32 = if g.cfg.perturb { w[2] } else { 0 };
     let w = [w[0], w[1], prate, w[3], w[4], w[5]];
     let mut i = 0;
+    // multi-step dependencies need consecutive steps on the SAME holder: stay on one for a burst
+    let mut h = g.any_holder();
+    let stick: u64 = *g.rng.pick(&[0u64, 50, 70, 85]);
     while i < budget {
-        let h = g.any_holder();
+        if !g.rng.chance(stick, 100) {
+            h = g.any_holder();
+        }
         match g.rng.weighted(&w) {
             0 => g.edit(h, false),
             1 => {
@@ -637,11 +644,17 @@ fn gen_c13(g: &mut Gen, budget: usize) {
         let shape = g.rng.below(10);
         let pipe = g.rng.below(2);
         // the senders' subjects come from histories
-        for _ in 0..g.rng.below(3) {
-            let h = g.any_holder();
+        let mut h = g.any_holder();
+        for _ in 0..g.rng.below(4) {
+            if g.rng.chance(1, 3) {
+                h = g.any_holder();
+            }
             match g.rng.below(10) {
                 0..=4 => g.edit(h, false),
-                5..=6 => g.constructor(h, false),
+                5..=6 => {
+                    let ovf = g.rng.chance(1, 5);
+                    g.constructor(h, ovf)
+                }
                 7 => g.workload(h),
                 _ => {
                     if g.cfg.perturb {
@@ -654,8 +667,8 @@ fn gen_c13(g: &mut Gen, budget: usize) {
             i += 1;
         }
         if shape < 4 {
-            // (a) single transfer
-            let s = g.any_holder();
+            // (a) single transfer, preferably of the subject the history above just produced
+            let s = if g.rng.chance(2, 3) { h } else { g.any_holder() };
             g.send(s, pipe);
             if g.cfg.junk && g.rng.chance(1, 3) {
                 let mut j = Step::new(Kind::Junk, 0);
@@ -670,8 +683,8 @@ fn gen_c13(g: &mut Gen, budget: usize) {
         } else if shape < 8 {
             // (b) framing history: several messages back to back, read in order
             let k = 2 + g.rng.below(5) as usize;
-            for _ in 0..k {
-                let s = g.any_holder();
+            for j in 0..k {
+                let s = if j == 0 && g.rng.chance(1, 2) { h } else { g.any_holder() };
                 g.send(s, pipe);
                 if g.cfg.junk && g.rng.chance(1, 6) {
                     let mut j = Step::new(Kind::Junk, 0);
